@@ -419,6 +419,24 @@ def run(ctx, shard):
                     P.pauli_index_to_F2(int(i), n)
                     P.pauli_index_to_F2(int(i), n, with_sign=False)
                     P.pauli_str_to_index(rp.str_of(int(i), n))
+                # the python-int entry points (own helper, not the batched code): every index for n<=4, otherwise a sample biased
+                # towards strings with many Y (the phase of the F2 form counts the Y letters mod 4); PauliOperator.from_index too
+                if n <= 4:
+                    ints = list(range(4**n))
+                else:
+                    ints = [int(t) for t in rng.integers(0, 4**n, size=48)]
+                    ints += [rp.index_of(''.join(rng.choice(list('YYYXZI'), size=n))) for _ in range(48)]
+                for i in ints:
+                    fi = P.pauli_index_to_F2(i, n)
+                    fb = f2[i] if n <= 4 else P.pauli_index_to_F2(np.array([i], dtype=np.int64), n)[0]
+                    ctx.check(np.array_equal(fi, fb), 'batched-vs-single/index_to_F2', 'python-int index->F2 differs from the batched conversion',
+                              {'n': n, 'index': i, 'single': fi, 'batched': fb})
+                    op = PO.from_index(i, n)
+                    ctx.check(np.array_equal(op.F2, fi) and op.str_ == rp.str_of(i, n) and op.sign == 1, 'from_index/consistent',
+                              'PauliOperator.from_index(i) is not +letters(i)', {'n': n, 'index': i, 'F2': op.F2, 'str': op.str_, 'sign': op.sign})
+                    if n <= 3:
+                        ctx.check(np.abs(op.full_matrix - rp.f2_dense(rp.to_f2((0, rp.str_of(i, n))))).max() < 1e-12, 'from_index/dense',
+                                  'PauliOperator.from_index(i).full_matrix is not the Kronecker product of the letters', {'n': n, 'index': i})
                 # batched == elementwise for str/F2 conversion incl. phases, shapes (k,) and (k,l)
                 for shape in [(5,), (3, 4), (1,), (2, 1, 3)]:
                     ii = rng.integers(0, 4**n, size=shape)
